@@ -532,6 +532,13 @@ class AnsiString:
         return -1
 
     @staticmethod
+    def _same_setting_references(list1:List[AnsiSetting], list2:List[AnsiSetting]) -> bool:
+        '''
+        Returns True iff the two lists hold the same AnsiSetting references in the same order
+        '''
+        return len(list1) == len(list2) and all(s1 is s2 for s1, s2 in zip(list1, list2))
+
+    @staticmethod
     def _find_settings_references(find_list:List[AnsiSetting], in_list:List[AnsiSetting]) -> List[Tuple[int, int]]:
         '''
         Parses a list of AniSettings for any AnsiSetting references in a find list
@@ -1045,6 +1052,13 @@ class AnsiString:
                     key == shift
                     and settings_add
                     and self._fmts[key].rem[:len(settings_add)] == settings_add
+                    and __class__._same_setting_references(
+                        [
+                            s for s in self.ansi_settings_at(shift - 1)
+                            if __class__._find_setting_reference(s, self._fmts[key].rem[:len(settings_add)]) >= 0
+                        ],
+                        self._fmts[key].rem[:len(settings_add)]
+                    )
                 ):
                     # Special case - the string being added contains same formatting as end of my string.
                     # Because the settings work based on references instead of values, the settings not only
